@@ -44,7 +44,7 @@ RULE = (
 ASSUMPTIONS = [
     "the harness-supplied antiderivative F is the antiderivative of the harness-supplied density (cross-checked against the analytic integral in every antiderivative case)",
     "N_entries of a histogram is the number of filled entries including underflow and overflow (for set_bins / numpy input: sum of heights + underflow + overflow)",
-    "'numerical' (scipy.integrate.quad, default tolerances) is required to reach 1e-9 relative to width*max|f| only on bins narrower than ~7 sigma / 10 decay lengths (generated so)",
+    "'numerical' (scipy.integrate.quad, default epsabs = epsrel = 1.49e-8) is held to 1e-9 x width*max|f| where one Gauss-Kronrod panel resolves the density (bin <= 7 sigma, density ratio across the bin <= e^30; observable data/numerical); elsewhere only to quad's documented accuracy (data/numerical-wide-bins)",
     "convergence orders: 8..14 bins of 0.12..0.4 characteristic lengths (sigma, 1/lambda), every bin halved three times, order = least-squares slope of log2(sum of |bin errors|) over the three finest levels; ladders whose smallest error is below 1e-11 x sum(width*|f|) (10^4 x rounding) are discarded and counted",
     "parameters without a default in the model signature start at 1.0 (kafe2 convention); initial values are read back, a mismatch is a discard not a verdict",
 ]
@@ -392,6 +392,23 @@ def deriv_bound(spec, p, edges, order):
     return out
 
 
+def single_panel_regime(spec, p, edges):
+    """True when every bin is narrower than 7 sigma and the density changes by less than e^30 across it (measured on the
+    unchanged QUADPACK: one 21-point Gauss-Kronrod panel is then accurate to < 1e-13 of width*max|f|, so the 1e-9 bound
+    has four orders of margin); polynomials of degree <= 5 are integrated exactly by that panel."""
+    a, b = edges[:-1], edges[1:]
+    w = b - a
+    for _, kind, args in components(spec, p):
+        if kind == "normal":
+            far = np.maximum(np.abs(a - args[0]), np.abs(b - args[0]))
+            if np.any(w > 7.0 * args[1]) or np.any(far * w > 30.0 * args[1] ** 2):
+                return False
+        elif kind == "expo":
+            if np.any(np.abs(args[0]) * w > 30.0):
+                return False
+    return True
+
+
 def rule_reference(spec, p, edges, rule):
     """the textbook rule (Simpson 1-4-1 /6, trapezoid 1-1 /2, midpoint) on the harness' own density"""
     a, b = edges[:-1], edges[1:]
@@ -451,10 +468,10 @@ def check_bins(ctx, st, got, mult, where, obs_main=None, key=None):
     elif method == "numerical":
         ref = ref_integral(spec, p, edges)
         atol = 1e-9 * scale
-        wide = (not fam.startswith("poly")) and bool(np.any(np.diff(edges) > 7.0 * char_length(spec, p)))
+        wide = not single_panel_regime(spec, p, edges)
         if wide:
-            # outside the regime in which a single Gauss-Kronrod panel resolves the density: only quad's own documented
-            # accuracy (epsabs = epsrel = 1.49e-8) can be demanded
+            # outside the regime in which one 21-point Gauss-Kronrod panel resolves the density to rounding: only quad's
+            # own documented accuracy (epsabs = epsrel = 1.49e-8) can be demanded
             atol = atol + 1.49e-8 * np.maximum(1.0, np.abs(ref))
         ok &= _cmp(ctx, obs_main or ("data/numerical-wide-bins" if wide else "data/numerical"), got, mult * ref, am * atol, detail, key)
     elif fam.startswith("poly"):
